@@ -96,6 +96,7 @@ def laws : List Law :=
   , law! "CommLaws.mul_comm", .holds, fun _α g => check_CommLaws_mul_comm g.full
   , law! "LtTrichotomy", .fails, fun _α g => check_LtTrichotomy g.full
   , law! "BeqLe", .holds, fun _α g => check_BeqLe g.full
+  , law! "BeqOrd[non-NaN]", .holds, fun _α g => check_BeqOrd g.full
   , law! "GoodSet.notNaN[G=ltMax]", .holds, fun _α g => check_GoodSet_notNaN gMax g.full
   , law! "GoodSet.ltMax[G=ltMax]", .holds, fun _α g => check_GoodSet_ltMax gMax g.full
   , law! "GoodSet.beqRefl[G=ltMax]", .holds, fun _α g => check_GoodSet_beqRefl gMax g.full
